@@ -1,6 +1,7 @@
 (* C11 - lemmas and proofs for Upgrade / Suggest / Relax / Override. *)
 From Coq Require Import List ZArith NArith Bool Arith Lia Permutation PeanoNat.
-From Scalibr Require Import Lib.SortSearch RemedC11.Upgrade RemedC11.Suggest RemedC11.Relax RemedC11.Override.
+From Coq Require Import Sorted.
+From Scalibr Require Import Lib.SortSearch RemedC11.Upgrade RemedC11.Suggest RemedC11.Relax RemedC11.Override RemedC11.RelaxLoop.
 Import ListNotations.
 
 (* ======================================================================= Upgrade *)
@@ -633,15 +634,19 @@ Section OverrideProofs.
   Notation pvulns := (patch_vulns versions_of rank dif affected analyse cfg vuln_ids).
 
   (* ---- getVersionsGreater on a well-formed version list *)
-  Lemma wf_cmpf : forall vs, wf_versions rank vs ->
-    forall a b, In a vs -> In b vs -> cmpf rank vs a b = Z.compare (rk rank a) (rk rank b).
+  Lemma parsed_cmpf : forall L, (forall v, In v L -> rank v <> None) ->
+    forall a b, In a L -> In b L -> cmpf rank L a b = Z.compare (rk rank a) (rk rank b).
   Proof.
-    intros vs [Hp _] a b Ha Hb. unfold cmpf, sem, rk.
-    assert (Ea : existsb (N.eqb a) vs = true) by (apply existsb_exists; exists a; split; [exact Ha|apply N.eqb_refl]).
-    assert (Eb : existsb (N.eqb b) vs = true) by (apply existsb_exists; exists b; split; [exact Hb|apply N.eqb_refl]).
+    intros L Hp a b Ha Hb. unfold cmpf, sem, rk.
+    assert (Ea : existsb (N.eqb a) L = true) by (apply existsb_exists; exists a; split; [exact Ha|apply N.eqb_refl]).
+    assert (Eb : existsb (N.eqb b) L = true) by (apply existsb_exists; exists b; split; [exact Hb|apply N.eqb_refl]).
     rewrite Ea, Eb. specialize (Hp a Ha) as Pa. specialize (Hp b Hb) as Pb.
     destruct (rank a); [|congruence]. destruct (rank b); [|congruence]. reflexivity.
   Qed.
+
+  Lemma wf_cmpf : forall vs, wf_versions rank vs ->
+    forall a b, In a vs -> In b vs -> cmpf rank vs a b = Z.compare (rk rank a) (rk rank b).
+  Proof. intros vs [Hp _]. apply parsed_cmpf. exact Hp. Qed.
 
   Lemma wf_rank_inj : forall vs, wf_versions rank vs ->
     forall a b, In a vs -> In b vs -> rk rank a = rk rank b -> a = b.
@@ -651,24 +656,75 @@ Section OverrideProofs.
     destruct (rank a); [|congruence]. destruct (rank b); [|congruence]. congruence.
   Qed.
 
-  Lemma gvg_greater : forall vs vk, wf_versions rank vs -> In vk vs ->
+  (* every version offered lies strictly above the given one - listed or not, as long as it parses *)
+  Lemma gvg_greater : forall vs vk, wf_versions rank vs -> rank vk <> None ->
     forall w, In w (gvg vs vk) -> In w vs /\ rank_lt rank vk w = true.
   Proof.
     intros vs vk Hwf Hvk w Hw.
     pose proof (wf_cmpf vs Hwf) as Hc. pose proof (wf_rank_inj vs Hwf) as Hinj.
     destruct Hwf as [Hp [Hnd Hi]].
+    assert (Hc' : forall a b, In a (vk :: vs) -> In b (vk :: vs) ->
+              cmpf rank (vk :: vs) a b = Z.compare (rk rank a) (rk rank b)).
+    { apply parsed_cmpf. intros v [<-|Hv]; [exact Hvk|apply Hp; exact Hv]. }
     assert (Hs : sasc rank (sorted_versions rank vs) /\ (forall z, In z (sorted_versions rank vs) <-> In z vs)).
     { unfold sorted_versions. destruct (is_sorted (cmpf rank vs) vs) eqn:E.
       - split; [|intros z; reflexivity]. apply (is_sorted_sasc rank vs (cmpf rank vs) Hc Hinj vs); auto. apply incl_refl.
       - apply (go_sort_spec rank vs (cmpf rank vs) Hc Hinj vs); auto. apply incl_refl. }
     destruct Hs as [S1 S2].
     unfold get_versions_greater in Hw.
-    apply (gvg_suffix rank vs (cmpf rank vs) Hc (sorted_versions rank vs) vk) in Hw; auto.
+    apply (gvg_suffix rank (vk :: vs) (cmpf rank (vk :: vs)) Hc' (sorted_versions rank vs) vk) in Hw; auto.
     - destruct Hw as [W1 W2]. split; [apply S2; exact W1|].
       unfold rank_lt. unfold rk in W2.
-      specialize (Hp vk Hvk) as Pv. assert (In w vs) as Hwv by (apply S2; exact W1). specialize (Hp w Hwv) as Pw.
+      assert (In w vs) as Hwv by (apply S2; exact W1). specialize (Hp w Hwv) as Pw.
       destruct (rank vk); [|congruence]. destruct (rank w); [|congruence]. apply Z.ltb_lt. exact W2.
-    - intros z Hz. apply S2. exact Hz.
+    - intros z Hz. right. apply S2. exact Hz.
+    - left. reflexivity.
+  Qed.
+
+  (* ---- the sorted list does not depend on the sorting algorithm: on a well-formed version list ANY
+     ascending permutation is the list the model computes (so slices.SortFunc - insertion sort up to 12
+     elements, unstable pdqsort above - is only assumed to return a sorted permutation) *)
+  Definition zc (a b : ver) : comparison := Z.compare (rk rank a) (rk rank b).
+
+  Lemma zc_antisym : forall a b, zc b a = CompOpp (zc a b).
+  Proof. intros a b. unfold zc. apply Z.compare_antisym. Qed.
+
+  Lemma zc_lt_trans : forall a b c, zc a b = Lt -> zc b c = Lt -> zc a c = Lt.
+  Proof. intros a b c. unfold zc. rewrite !Z.compare_lt_iff. lia. Qed.
+
+  Lemma sasc_ssorted : forall l, sasc rank l -> ssorted zc l = true.
+  Proof.
+    induction l as [|x l IH]; intros H; [reflexivity|]. destruct H as [H1 H2]. cbn [ssorted].
+    rewrite (IH H2), andb_true_r. apply all_gt_In. intros y Hy. unfold ltb, zc.
+    specialize (H1 y Hy). apply Z.compare_lt_iff in H1. rewrite H1. reflexivity.
+  Qed.
+
+  Lemma sorted_versions_spec : forall vs, wf_versions rank vs ->
+    sasc rank (sorted_versions rank vs) /\ Permutation (sorted_versions rank vs) vs.
+  Proof.
+    intros vs Hwf. pose proof (wf_cmpf vs Hwf) as Hc. pose proof (wf_rank_inj vs Hwf) as Hinj.
+    destruct Hwf as [Hp [Hnd Hi]].
+    unfold sorted_versions. destruct (is_sorted (cmpf rank vs) vs) eqn:E.
+    - split; [|apply Permutation_refl]. apply (is_sorted_sasc rank vs (cmpf rank vs) Hc Hinj vs); auto. apply incl_refl.
+    - destruct (go_sort_spec rank vs (cmpf rank vs) Hc Hinj vs (incl_refl _) Hnd) as [S1 S2]. split; [exact S1|].
+      apply NoDup_Permutation; [|exact Hnd|exact S2].
+      apply (ssorted_NoDup zc zc_antisym). apply sasc_ssorted. exact S1.
+  Qed.
+
+  Lemma sort_unique_on_distinct_lemma : forall vs s, wf_versions rank vs ->
+    Permutation s vs -> sasc rank s -> s = sorted_versions rank vs.
+  Proof.
+    intros vs s Hwf HP HS. destruct (sorted_versions_spec vs Hwf) as [S1 S2].
+    apply (ssorted_perm_unique zc zc_antisym).
+    - apply sasc_ssorted. exact HS.
+    - apply sasc_ssorted. exact S1.
+    - rewrite HP. symmetry. exact S2.
+  Qed.
+
+  Lemma sorted_versions_isort : forall vs, wf_versions rank vs -> sorted_versions rank vs = isort zc vs.
+  Proof.
+    intros vs Hwf. destruct (sorted_versions_spec vs Hwf) as [S1 S2]. symmetry.
+    apply (isort_unique zc zc_antisym zc_lt_trans); [exact S2|apply sasc_ssorted; exact S1].
   Qed.
 
   (* ---- the candidate scan *)
@@ -853,20 +909,20 @@ Section OverrideProofs.
     - intros it [].
   Qed.
 
-  (* ---- strictly upward: needs the universe to be well-formed and resolved versions to be listed *)
+  (* ---- strictly upward: needs the universe to be well-formed and resolved versions to parse *)
   Hypothesis H_wf : forall p, wf_versions rank (versions_of p).
-  Hypothesis H_listed : forall ovs vulns rv p v cl,
-    analyse ovs = Some vulns -> In rv vulns -> In (p, v, cl) (rv_nodes rv) -> In v (versions_of p).
+  Hypothesis H_parses : forall ovs vulns rv p v cl,
+    analyse ovs = Some vulns -> In rv vulns -> In (p, v, cl) (rv_nodes rv) -> rank v <> None.
 
   Lemma iteration_patch : forall ovs ps q, iter ovs = Some ps -> In q ps ->
-    In (p_from q) (versions_of (p_pkg q)) /\ In (p_to q) (versions_of (p_pkg q)) /\
+    rank (p_from q) <> None /\ In (p_to q) (versions_of (p_pkg q)) /\
     rank_lt rank (p_from q) (p_to q) = true /\
     exists vulns rv cl, analyse ovs = Some vulns /\ In rv vulns /\ In (p_pkg q, p_from q, cl) (rv_nodes rv).
   Proof.
     intros ovs ps q HI Hq. destruct (iteration_inv _ _ HI) as [vulns [gs [EA [_ [E [_ Hn]]]]]]. subst ps.
     apply patch_groups_In in Hq as [g [iss' [Hg [F _]]]]. destruct (patch_group_inv _ _ _ F) as [E1 [E2 [_ [_ [I _]]]]].
     destruct (Hn g Hg) as [rv [c [I1 I2]]].
-    assert (Hl : In (g_ver g) (versions_of (g_pkg g))) by (eapply H_listed; eauto).
+    assert (Hl : rank (g_ver g) <> None) by (eapply H_parses; eauto).
     destruct (gvg_greater _ _ (H_wf (g_pkg g)) Hl _ I) as [G1 G2].
     unfold p_pkg, p_from, p_to. rewrite E1, E2. repeat split; auto.
     exists vulns, rv, c. auto.
@@ -1140,3 +1196,281 @@ Section OverrideProofs.
     apply (patch_vulns_hist fuel [] []); auto. intros q' o' [].
   Qed.
 End OverrideProofs.
+
+(* ======================================================================= Relax: the outer loop *)
+(* ---- reqsToRelax yields a duplicate-free list *)
+Lemma pr_cmp_eq : forall a b, pr_cmp a b = Eq <-> a = b.
+Proof.
+  intros [a1 a2] [b1 b2]. unfold pr_cmp. simpl. split.
+  - destruct (N.compare_spec a1 b1) as [E1|E1|E1]; try discriminate. intros E2. apply N.compare_eq in E2. congruence.
+  - intros E. inversion E; subst. rewrite !N.compare_refl. reflexivity.
+Qed.
+
+Lemma pr_cmp_antisym : forall a b, pr_cmp b a = CompOpp (pr_cmp a b).
+Proof.
+  intros [a1 a2] [b1 b2]. unfold pr_cmp. simpl. rewrite (N.compare_antisym a1 b1), (N.compare_antisym a2 b2).
+  destruct (N.compare a1 b1); reflexivity.
+Qed.
+
+Definition pr_le (a b : pkg * req) : Prop := pr_cmp a b <> Gt.
+
+Lemma pr_le_trans : forall a b c, pr_le a b -> pr_le b c -> pr_le a c.
+Proof.
+  intros [a1 a2] [b1 b2] [c1 c2]. unfold pr_le, pr_cmp. simpl. intros H1 H2.
+  destruct (N.compare_spec a1 b1), (N.compare_spec b1 c1), (N.compare_spec a1 c1); subst; try lia; try congruence.
+  destruct (N.compare_spec a2 b2), (N.compare_spec b2 c2), (N.compare_spec a2 c2); subst; try lia; try congruence.
+Qed.
+
+Lemma pr_le_antisym : forall a b, pr_le a b -> pr_le b a -> a = b.
+Proof.
+  intros a b H1 H2. apply pr_cmp_eq. unfold pr_le in *. rewrite (pr_cmp_antisym a b) in H2.
+  destruct (pr_cmp a b); simpl in *; congruence.
+Qed.
+
+Lemma insert_sorted : forall x l, Sorted pr_le l -> Sorted pr_le (insert pr_cmp x l).
+Proof.
+  intros x. induction l as [|y l IH]; intros HS; cbn [insert].
+  - constructor; constructor.
+  - unfold leb. destruct (pr_cmp x y) eqn:E.
+    + constructor; [exact HS|]. constructor. unfold pr_le. congruence.
+    + constructor; [exact HS|]. constructor. unfold pr_le. congruence.
+    + inversion HS as [|? ? HS' Hhd]; subst. constructor; [apply IH; exact HS'|].
+      assert (Hyx : pr_le y x) by (unfold pr_le; rewrite (pr_cmp_antisym x y), E; discriminate).
+      destruct l as [|z l]; cbn [insert]; [constructor; exact Hyx|].
+      unfold leb. destruct (pr_cmp x z); constructor; try exact Hyx; inversion Hhd; assumption.
+Qed.
+
+Lemma isort_sorted : forall l, Sorted pr_le (isort pr_cmp l).
+Proof. induction l as [|x l IH]; cbn [isort]; [constructor|apply insert_sorted; exact IH]. Qed.
+
+Lemma pair_eqb_eq : forall a b, pair_eqb a b = true <-> a = b.
+Proof.
+  intros [a1 a2] [b1 b2]. unfold pair_eqb. simpl. rewrite andb_true_iff, !N.eqb_eq. split; [intros [-> ->]; reflexivity|intros E; inversion E; auto].
+Qed.
+
+Lemma compact_In : forall l x, In x (compact l) -> In x l.
+Proof.
+  induction l as [|a [|b t] IH]; intros x H; cbn [compact] in H; try exact H.
+  destruct (pair_eqb a b); [right; apply IH; exact H|].
+  destruct H as [<-|H]; [left; reflexivity|right; apply IH; exact H].
+Qed.
+
+Lemma compact_hd_le : forall l a x, StronglySorted pr_le (a :: l) -> In x (compact (a :: l)) -> pr_le a x.
+Proof.
+  intros l a x HS H. apply compact_In in H. destruct H as [<-|H].
+  - unfold pr_le. rewrite (proj2 (pr_cmp_eq a a) eq_refl). discriminate.
+  - inversion HS as [|? ? _ HF]; subst. rewrite Forall_forall in HF. apply HF. exact H.
+Qed.
+
+Lemma compact_NoDup : forall l, StronglySorted pr_le l -> NoDup (compact l).
+Proof.
+  induction l as [|a [|b t] IH]; intros HS; cbn [compact]; [constructor|constructor; [intros []|constructor]|].
+  inversion HS as [|? ? HS' HF]; subst.
+  destruct (pair_eqb a b) eqn:E; [apply IH; exact HS'|].
+  constructor; [|apply IH; exact HS'].
+  intros Hin. pose proof (compact_hd_le _ _ _ HS' Hin) as Hba.
+  assert (Hab : pr_le a b) by (rewrite Forall_forall in HF; apply HF; left; reflexivity).
+  assert (a = b) by (apply pr_le_antisym; assumption).
+  apply pair_eqb_eq in H. congruence.
+Qed.
+
+Section RelaxLoopProofs.
+  Variable relax_req : pkg -> req -> option req.
+  Variable analyse : list (pkg * req) -> option (list xvuln).
+  Variable cfg : config.
+  Variable vuln_ids : list vid.
+
+  Notation rtr := (reqs_to_relax vuln_ids).
+  Notation reach := (relax_each relax_req cfg).
+  Notation rloop := (relax_loop relax_req analyse cfg vuln_ids).
+
+  Lemma reqs_to_relax_NoDup : forall vs, NoDup (rtr vs).
+  Proof.
+    intros vs. unfold reqs_to_relax. apply compact_NoDup. apply Sorted_StronglySorted.
+    - intros a b c. apply pr_le_trans.
+    - apply isort_sorted.
+  Qed.
+
+  Lemma reqs_to_relax_In : forall vs x, In x (rtr vs) ->
+    exists v, In v vs /\ relevant vuln_ids v = true /\ In x (xv_directs v).
+  Proof.
+    intros vs x H. unfold reqs_to_relax in H. apply compact_In in H.
+    apply (Permutation_in _ (Permutation_sym (isort_perm pr_cmp _))) in H.
+    apply in_flat_map in H as [v [Hv Hx]]. apply filter_In in Hv as [Hv Hr]. exists v. auto.
+  Qed.
+
+  (* the pass over toRelax *)
+  Definition x_key (q : xpatch) : pkg * req := (x_pkg q, x_old q).
+
+  Lemma relax_each_spec : forall rs acc ps ok, reach rs acc = (ps, ok) ->
+    exists ps', ps = rev acc ++ ps' /\
+      (forall q, In q ps' -> In (x_key q) rs /\ config_get cfg (x_pkg q) <> LNone /\
+                             relax_req (x_pkg q) (x_old q) = Some (x_new q)) /\
+      (ok = true -> map x_key ps' = rs).
+  Proof.
+    induction rs as [|[p r] rs IH]; intros acc ps ok H; cbn [relax_each] in H.
+    - inversion H; subst. exists []. rewrite app_nil_r. split; [reflexivity|]. split; [intros q []|reflexivity].
+    - destruct (level_eqb (config_get cfg p) LNone) eqn:EL.
+      + inversion H; subst. exists []. rewrite app_nil_r. split; [reflexivity|]. split; [intros q []|discriminate].
+      + destruct (relax_req p r) as [r'|] eqn:ER.
+        * destruct (IH _ _ _ H) as [ps' [E [Hq Hok]]]. exists ((p, r, r') :: ps').
+          split; [rewrite E; cbn [rev]; rewrite <- app_assoc; reflexivity|]. split.
+          -- intros q [<-|Hin].
+             ++ split; [left; reflexivity|]. split; [|exact ER].
+                unfold x_pkg. simpl. intros E'. rewrite E' in EL. discriminate.
+             ++ destruct (Hq q Hin) as [A B]. split; [right; exact A|exact B].
+          -- intros Ho. cbn [map]. rewrite (Hok Ho). reflexivity.
+        * inversion H; subst. exists []. rewrite app_nil_r. split; [reflexivity|]. split; [intros q []|discriminate].
+  Qed.
+
+  (* what is known about a requirement replacement: where its old requirement came from *)
+  Definition responsible (q : xpatch) : Prop :=
+    config_get cfg (x_pkg q) <> LNone /\ relax_req (x_pkg q) (x_old q) = Some (x_new q) /\
+    exists ovs vs v, analyse ovs = Some vs /\ In v vs /\ In (xv_id v) vuln_ids /\ In (x_key q) (xv_directs v).
+
+  Definition todo_ok (ovs todo : list (pkg * req)) : Prop :=
+    exists vs, analyse ovs = Some vs /\ todo = rtr vs.
+
+  Lemma relevant_In : forall v, relevant vuln_ids v = true -> In (xv_id v) vuln_ids.
+  Proof.
+    intros v H. unfold relevant in H. apply existsb_exists in H as [u [Hu E]]. apply N.eqb_eq in E. subst. exact Hu.
+  Qed.
+
+  Lemma relax_loop_responsible : forall fuel ovs todo acc,
+    todo_ok ovs todo -> (forall it, In it acc -> forall q, In q it -> responsible q) ->
+    forall q, In q (xpatches_of (rloop fuel ovs todo acc)) -> responsible q.
+  Proof.
+    induction fuel as [|f IH]; intros ovs todo acc Htodo Hacc q Hq; cbn [relax_loop] in Hq.
+    - unfold xpatches_of, xiters_of in Hq. apply in_concat in Hq as [it [I1 I2]]. apply in_rev in I1. eapply Hacc; eauto.
+    - destruct todo as [|t0 todo'].
+      + unfold xpatches_of, xiters_of in Hq. apply in_concat in Hq as [it [I1 I2]]. apply in_rev in I1. eapply Hacc; eauto.
+      + destruct (reach (t0 :: todo') []) as [ps ok] eqn:ER.
+        destruct (relax_each_spec _ _ _ _ ER) as [ps' [E [Hps _]]]. cbn [rev app] in E. subst ps'.
+        assert (Hnew : forall q', In q' ps -> responsible q').
+        { intros q' Hq'. destruct (Hps q' Hq') as [A [B C]]. split; [exact B|]. split; [exact C|].
+          destruct Htodo as [vs [EA ET]]. rewrite ET in A.
+          destruct (reqs_to_relax_In _ _ A) as [v [Hv [Hr Hx]]].
+          exists ovs, vs, v. split; [exact EA|]. split; [exact Hv|]. split; [apply relevant_In; exact Hr|exact Hx]. }
+        assert (Hacc' : forall it, In it (ps :: acc) -> forall q', In q' it -> responsible q').
+        { intros it [<-|Hit]; [exact Hnew|apply Hacc; exact Hit]. }
+        destruct ok; cbn [negb] in Hq.
+        * destruct (analyse (ovs ++ map x_override ps)) as [vs'|] eqn:EA'.
+          -- eapply IH; [| exact Hacc' | exact Hq]. exists vs'. split; [exact EA'|reflexivity].
+          -- unfold xpatches_of, xiters_of in Hq. apply in_concat in Hq as [it [I1 I2]]. apply in_rev in I1. eapply Hacc'; eauto.
+        * unfold xpatches_of, xiters_of in Hq. apply in_concat in Hq as [it [I1 I2]]. apply in_rev in I1. eapply Hacc'; eauto.
+  Qed.
+
+  Lemma relax_touches_responsible_lemma : forall fuel q,
+    In q (xpatches_of (run_relax relax_req analyse cfg vuln_ids fuel)) -> responsible q.
+  Proof.
+    intros fuel q Hq. unfold run_relax in Hq. destruct (analyse []) as [vs|] eqn:EA; [|destruct Hq].
+    eapply relax_loop_responsible; [| |exact Hq].
+    - exists vs. split; [exact EA|reflexivity].
+    - intros it [].
+  Qed.
+
+  (* ---- termination *)
+  Variable init : pkg -> req.
+  Variable hm : pkg -> req -> nat.
+  Variable bound : pkg -> nat.
+  Variable pkgs : list pkg.
+  Notation cur := (cur_req init).
+
+  (* a relaxation moves the highest matching version strictly up, within the package's versions *)
+  Hypothesis H_up : forall p r r', relax_req p r = Some r' -> hm p r < hm p r' /\ hm p r' < bound p.
+  (* the requirement found on a root edge is the one in force, of a package of the finite universe *)
+  Hypothesis H_cur : forall ovs vs v p r, analyse ovs = Some vs -> In v vs -> In (xv_id v) vuln_ids ->
+    In (p, r) (xv_directs v) -> r = cur ovs p /\ In p pkgs.
+
+  Definition seen_of (ovs : list (pkg * req)) : list (pkg * nat) := map (fun x => (fst x, hm (fst x) (snd x))) ovs.
+  Definition all_levels : list (pkg * nat) := flat_map (fun p => map (pair p) (seq 0 (bound p))) pkgs.
+
+  Definition x_inv (ovs : list (pkg * req)) : Prop :=
+    NoDup (seen_of ovs) /\ incl (seen_of ovs) all_levels /\
+    forall p r, In (p, r) ovs -> hm p r <= hm p (cur ovs p).
+
+  Lemma cur_req_app : forall a b p,
+    cur (a ++ b) p = match last_override b p with Some r => r | None => cur a p end.
+  Proof.
+    intros a b p. unfold cur_req. rewrite last_override_app. destruct (last_override b p); reflexivity.
+  Qed.
+
+  Lemma all_levels_length : forall l,
+    length (flat_map (fun p => map (pair p) (seq 0 (bound p))) l) = fold_right (fun p n => bound p + n) 0 l.
+  Proof.
+    induction l as [|p l IH]; [reflexivity|]. cbn [flat_map fold_right]. rewrite app_length, map_length, seq_length, IH. reflexivity.
+  Qed.
+
+  Lemma x_inv_step : forall ovs vs ps,
+    x_inv ovs -> analyse ovs = Some vs -> reach (rtr vs) [] = (ps, true) ->
+    x_inv (ovs ++ map x_override ps) /\ (rtr vs <> [] -> ps <> []).
+  Proof.
+    intros ovs vs ps [I1 [I2 I3]] EA ER.
+    destruct (relax_each_spec _ _ _ _ ER) as [ps' [E [Hps Hok]]]. cbn [rev app] in E. subst ps'.
+    specialize (Hok eq_refl).
+    assert (Hq : forall q, In q ps -> x_old q = cur ovs (x_pkg q) /\ In (x_pkg q) pkgs /\
+                                    hm (x_pkg q) (x_old q) < hm (x_pkg q) (x_new q) /\ hm (x_pkg q) (x_new q) < bound (x_pkg q)).
+    { intros q Hin. destruct (Hps q Hin) as [A [_ C]].
+      destruct (reqs_to_relax_In _ _ A) as [v [Hv [Hr Hx]]].
+      destruct (H_cur ovs vs v _ _ EA Hv (relevant_In _ Hr) Hx) as [Ec Hp].
+      destruct (H_up _ _ _ C) as [U1 U2]. auto. }
+    (* distinct packages within the pass *)
+    assert (Hdp : NoDup (map x_pkg ps)).
+    { assert (Hk : NoDup (map x_key ps)) by (rewrite Hok; apply reqs_to_relax_NoDup).
+      clear - Hk Hq. induction ps as [|q ps IH]; [constructor|]. cbn [map] in *. inversion Hk as [|? ? Hn Hk']; subst.
+      constructor; [|apply IH; [intros q' H'; apply Hq; right; exact H'|exact Hk']].
+      intros Hin. apply in_map_iff in Hin as [q' [Ep Hq']]. apply Hn. apply in_map_iff. exists q'. split; [|exact Hq'].
+      unfold x_key. rewrite Ep. f_equal.
+      destruct (Hq q (or_introl eq_refl)) as [A _]. destruct (Hq q' (or_intror Hq')) as [B _]. rewrite A, B, Ep. reflexivity. }
+    assert (Hfst : map fst (map x_override ps) = map x_pkg ps) by (rewrite map_map; reflexivity).
+    split; [|intros Hne Hnil; subst ps; cbn [map] in Hok; congruence].
+    split; [|split].
+    - unfold seen_of. rewrite map_app. apply NoDup_app_intro; [exact I1| |].
+      + apply NoDup_map_fst. rewrite !map_map. cbn [fst]. exact Hdp.
+      + intros [p k] Hn Ho. apply in_map_iff in Hn as [[p' r'] [En Hn]]. apply in_map_iff in Hn as [q [Eq Hin]].
+        unfold x_override in Eq. inversion Eq; subst p' r'. cbn [fst snd] in En. inversion En; subst p k.
+        apply in_map_iff in Ho as [[p0 r0] [Eo Ho]]. cbn [fst snd] in Eo. inversion Eo as [[Ep Ek]]. subst p0.
+        destruct (Hq q Hin) as [A [_ [B _]]]. specialize (I3 _ _ Ho). rewrite <- A in I3. lia.
+    - unfold seen_of. rewrite map_app. intros x Hx. apply in_app_or in Hx. destruct Hx as [Hx|Hx]; [apply I2; exact Hx|].
+      apply in_map_iff in Hx as [[p' r'] [En Hn]]. apply in_map_iff in Hn as [q [Eq Hin]].
+      unfold x_override in Eq. inversion Eq; subst p' r'. cbn [fst snd] in En. subst x.
+      destruct (Hq q Hin) as [_ [P [_ B]]]. unfold all_levels. apply in_flat_map. exists (x_pkg q). split; [exact P|].
+      apply in_map. apply in_seq. lia.
+    - intros p r Hin. rewrite cur_req_app.
+      destruct (last_override (map x_override ps) p) as [t|] eqn:EL.
+      + assert (Ht : In (p, t) (map x_override ps)) by (apply last_override_In; exact EL).
+        apply in_app_or in Hin. destruct Hin as [Hin|Hin].
+        * apply in_map_iff in Ht as [q [Eq Hq']]. unfold x_override in Eq. inversion Eq; subst p t.
+          destruct (Hq q Hq') as [A [_ [B _]]]. specialize (I3 _ _ Hin). rewrite <- A in I3. lia.
+        * assert (r = t).
+          { apply (last_override_unique (map x_override ps) p t r); [rewrite map_map; exact Hdp|exact EL|exact Hin]. }
+          subst. lia.
+      + apply in_app_or in Hin. destruct Hin as [Hin|Hin]; [apply I3; exact Hin|].
+        exfalso. eapply last_override_None; eauto.
+  Qed.
+
+  Lemma relax_loop_fuel : forall fuel ovs vs acc,
+    x_inv ovs -> analyse ovs = Some vs -> length all_levels - length ovs < fuel ->
+    forall i, rloop fuel ovs (rtr vs) acc <> XOutOfFuel i.
+  Proof.
+    induction fuel as [|f IH]; intros ovs vs acc Hinv EA Hlt i; [lia|].
+    cbn [relax_loop]. destruct (rtr vs) as [|t0 todo'] eqn:ET; [discriminate|].
+    destruct (reach (t0 :: todo') []) as [ps ok] eqn:ER. destruct ok; cbn [negb]; [|discriminate].
+    rewrite <- ET in ER. destruct (x_inv_step _ _ _ Hinv EA ER) as [Hinv' Hne].
+    destruct (analyse (ovs ++ map x_override ps)) as [vs'|] eqn:EA'; [|discriminate].
+    apply IH; [exact Hinv'|exact EA'|].
+    destruct Hinv' as [N1 [N2 _]]. pose proof (NoDup_incl_length N1 N2) as Hle.
+    unfold seen_of in Hle. rewrite map_length in Hle. rewrite app_length, map_length in *.
+    assert (ps <> []) by (apply Hne; rewrite ET; discriminate).
+    destruct ps; [congruence|]. cbn [length] in *. lia.
+  Qed.
+
+  Lemma relax_terminates_lemma : forall fuel, relax_bound bound pkgs <= fuel ->
+    forall i, run_relax relax_req analyse cfg vuln_ids fuel <> XOutOfFuel i.
+  Proof.
+    intros fuel Hf i. unfold run_relax. destruct (analyse []) as [vs|] eqn:EA; [|discriminate].
+    apply relax_loop_fuel; [|exact EA|].
+    - split; [constructor|]. split; [intros x []|intros p r []].
+    - unfold relax_bound in Hf. unfold all_levels. rewrite all_levels_length. simpl. lia.
+  Qed.
+End RelaxLoopProofs.
